@@ -171,6 +171,15 @@ def check_program(case):
         except TooManySteps:
             out.fail("non_termination", "more than %d steps (bound ceil(1/minDtFrac)+2 = %d) for duration %r" % (cap, bound, dur))
             return out
+        except Exception as e:
+            # the generated programs are legal (the solver documents that the state may change shape in postProcess): an exception
+            # raised from inside kawin while running one is a broken contract, anything else is the harness's fault
+            import traceback
+            fr = [f for f in traceback.extract_tb(e.__traceback__) if "/kawin/" in f.filename]
+            if not fr:
+                raise
+            out.fail("solve_raised:%s" % type(e).__name__, "solve(%r) raised %r at %s:%d (%s) after %d callbacks" % (dur, e, fr[-1].filename.split("/kawin/")[-1], fr[-1].lineno, fr[-1].name, len(log) - n0))
+            return out
         ulp = np.spacing(abs(tf)) if tf != 0 else np.spacing(dur)
         dtmin, dtmax = minf * dur, maxf * dur
         stopped = any(m.stopped for m in models)
